@@ -40,6 +40,7 @@ def obs(S, g, post, rng):
     for _ in range(4):
         if nodes:
             cands.append(sorted(set(rng.choice(nodes) for _ in range(rng.randrange(1, 4)))))
+    cands += [c + c[:1] for c in cands[:4] if c]  # the same node set, given with a repetition
     out = []
     for c in cands:
         if -2 in c:
